@@ -212,5 +212,6 @@ Step(st0, e, strict) ==
          IF strict /\ e.extra > 0 /\ st.conc[1] > 0 /\ st.conc[2] > 0 /\ ~st.dead[1] /\ ~st.dead[2] THEN R(st, "C15:MessageNeverLeavesTheQueue") ELSE R(st, "")
     [] e.op = "noexit" -> R(st, "C03:DaemonDoesNotExitAfterTermWithNothingInFlight")
     [] e.op = "busyloop" -> R(st, "C16:DaemonNeverBlocks")
+    [] e.op = "hang" -> R(st, "C15:DaemonStopsMakingProgress")
     [] OTHER -> R(st, "")
 =============================================================================
